@@ -352,6 +352,23 @@ theorem reopen_sets_lastSnapRoot (s : TState) (h : s.closed = true) :
   simp only [h]
   cases TState.bestDump s.loadedId s.dumps <;> exact ⟨_, rfl, rfl⟩
 
+/-- The program of the witness below: a stored tree whose TIMESTAMP file (5) is ahead of its root (1) is
+opened, one insert is accepted, the next bulk is REJECTED inside the leaf. -/
+def staleTsWitness : TState :=
+  TState.run {} [ .ins [([1], [1], 0)], .incTs 5, .close, .reopen,
+                  .ins [([2], [2], 0)], .ins [([3], [3], 9), ([3], [4], 8)] ]
+
+/-- **Finding (witness; the code as it is).** The rollback of the rejected bulk installs the LOADED root,
+whose ts is its content ts (1): `Ts()` drops from 6 to 1. That root is not mutated, so `Close` does not
+rewrite the TIMESTAMP file, and the next `Open` applies the value written by the EARLIER close again:
+the tree that was closed at ts 1 re-opens at ts 5 with the same content — `Ts()` is not preserved by
+close/reopen (harness signature `C10:reopen:ts-restored-from-stale-timestamp-file-after-rollback`). -/
+theorem reopen_after_rollback_restores_stale_ts :
+    staleTsWitness.cur.ts = 1 ∧ staleTsWitness.tsFile = 5 ∧
+    (staleTsWitness.run [.close, .reopen]).cur.ts = 5 ∧
+    (staleTsWitness.run [.close, .reopen]).cur.entries = staleTsWitness.cur.entries := by
+  refine ⟨by decide, by decide, by decide, by decide⟩
+
 /-! ## The B+tree implementation model refines the map -/
 
 /-- The map a tree stands for (the tree time is the root's, kept outside the nodes of the model). -/
@@ -461,6 +478,16 @@ example : (do
 /-- `snapshot_immutable`: a snapshot taken before later inserts still holds the old value. -/
 example : ((TState.run {} [.ins [([1], [1], 0)], .snap 7 0, .ins [([2], [2], 0)], .flush true true, .sync]).snapOf 7).map
     (fun m => m.entries.map Entry.key) = some [[1]] := rfl
+
+/-- `snapshot_immutable` on the copy-on-write sequence of the small-tree cases (`c10_cow.go`, seeded change
+c10-a): the root is stored, pinned by a snapshot, the live tree leaves it through a ts advance (no insert),
+then the EXISTING key is updated and stored again — the snapshot still reads version 1 with one version,
+the live tree reads the new one with two. -/
+def cowWitness : TState :=
+  TState.run {} [.ins [([1], [1], 0)], .flush true false, .snap 7 0, .incTs 5, .ins [([1], [2], 0)], .flush true false]
+
+example : ((cowWitness.snapOf 7).map fun m => m.get [1]) = some (.ok ([1], 1, 1)) := rfl
+example : cowWitness.cur.get [1] = .ok ([2], 6, 2) := rfl
 
 /-- The refinement theorems are not vacuous: with 80-byte nodes five keys give a tree of depth 3
 (leaf splits, an inner split and two root growths), satisfying the invariant. -/
